@@ -391,7 +391,14 @@ func caseVariant(r *gen.R, s string) string {
 		// byte ('_' vs DEL, '@' vs '`', digits vs control bytes), Kelvin sign for k, long s for s
 		b := []byte(s)
 		i := r.Intn(len(b))
-		if r.Bool() {
+		if r.P(150) {
+			for j := range b {
+				if b[j] == 'i' || b[j] == 'I' {
+					i = j
+					break
+				}
+			}
+		} else if r.Bool() {
 			// prefer a byte that is not a letter, if there is one
 			for j := range b {
 				if u := b[j] &^ 0x20; (u < 'A' || u > 'Z') && b[j] < 0x80 {
@@ -401,6 +408,9 @@ func caseVariant(r *gen.R, s string) string {
 			}
 		}
 		switch {
+		case (b[i] == 'i' || b[i] == 'I') && r.Bool():
+			// dotted capital I / dotless small i: related to i and I by ToLower/ToUpper, not by simple folding
+			return string(b[:i]) + r.Pick([]string{"\u0130", "\u0131"}) + string(b[i+1:])
 		case (b[i] == 'k' || b[i] == 'K') && r.Bool():
 			return string(b[:i]) + "\u212a" + string(b[i+1:])
 		case (b[i] == 's' || b[i] == 'S') && r.Bool():
